@@ -1,7 +1,7 @@
 (* C06 - Field and extent bookkeeping equals arithmetic on an infinite zero-padded plane.
    Only statements: every proof is [exact] of a lemma of Proofs/. [S] ranges over every
    commutative ring (Leibniz equality); shapes, offsets and coordinates over all of Z. *)
-From LV Require Import Model.Field Proofs.ExtentP Proofs.FieldP Lib.Instances.
+From LV Require Import Model.Field Model.FieldApi Proofs.ExtentP Proofs.FieldP Proofs.FieldApiP Lib.Instances.
 
 (* product of two fields = pointwise product of their embeddings, a 0-d operand (numpy shape ()) being an
    infinite constant and every array operand - a 1x1 array included - its zero-padded embedding
@@ -119,6 +119,93 @@ Theorem C06_boundary_is_bounding_box :
 Proof. exact boundary_is_bounding_box. Qed.
 Print Assumptions C06_boundary_is_bounding_box.
 
+(* ---- the public entry points around the kernels (Model/FieldApi.v) ---- *)
+
+(* merge(a, b, enforce_overlap): refused with ValueError exactly when overlap is enforced and the two extents have
+   no common sample, or when the two pixelscales differ; otherwise the result carries a's pixelscale, no tilt, and
+   the sum of the two embeddings *)
+Theorem C06_merge_outcome :
+  forall (S : Scalar), is_ring S -> forall (a b : pxfield S) (enforce : bool), fok S (fst a) -> fok S (fst b) ->
+  match merge_pub a b enforce with
+  | Ok (m, p) =>
+      p = snd a /\ snd b = snd a /\
+      (enforce = true -> exists r c, inE (fextent (fst a)) r c = true /\ inE (fextent (fst b)) r c = true) /\
+      ftilt m = [] /\ forall r c, embed m r c = (embed (fst a) r c + embed (fst b) r c)%K
+  | Err ValueError =>
+      (enforce = true /\ forall r c, inE (fextent (fst a)) r c && inE (fextent (fst b)) r c = false) \/ snd b <> snd a
+  | Err _ => False
+  end.
+Proof. exact merge_pub_outcome. Qed.
+Print Assumptions C06_merge_outcome.
+
+(* _merge(fields): IndexError exactly for the empty collection, ValueError exactly when some pixelscale differs from
+   the first one; otherwise the first pixelscale, no tilt, the sum of all embeddings *)
+Theorem C06_merge_collection_outcome :
+  forall (S : Scalar), is_ring S -> forall (fs : list (pxfield S)), (forall fp, In fp fs -> fok S (fst fp)) ->
+  match merge_px fs with
+  | Ok (m, p) => (exists f0 r, fs = (f0, p) :: r) /\ (forall fp, In fp fs -> snd fp = p) /\ ftilt m = [] /\
+                 forall r c, embed m r c = embed_sum (map fst fs) r c
+  | Err IndexError => fs = []
+  | Err ValueError => exists f0 p0 r fp, fs = (f0, p0) :: r /\ In fp fs /\ snd fp <> p0
+  | Err _ => False
+  end.
+Proof. exact merge_px_outcome. Qed.
+Print Assumptions C06_merge_collection_outcome.
+
+(* overlap(fields) for two fields: a common sample exists ... *)
+Theorem C06_overlap_of_two :
+  forall (S : Scalar) (a b : field S), fvalid S a -> fvalid S b ->
+  (overlap [a; b] = true <-> exists r c, inE (fextent a) r c = true /\ inE (fextent b) r c = true).
+Proof. exact overlap_two. Qed.
+Print Assumptions C06_overlap_of_two.
+
+(* ... for any other number of fields: reduce() leaves at most one field, and that field carries the whole plane *)
+Theorem C06_overlap_of_many :
+  forall (S : Scalar), is_ring S -> forall (fs : list (field S)), length fs <> 2%nat -> (forall f, In f fs -> fok S f) ->
+  (overlap fs = true <-> (length (reduce fs) <= 1)%nat) /\
+  (overlap fs = true -> fs = [] \/ exists g, reduce fs = [g] /\ forall r c, embed g r c = embed_sum fs r c).
+Proof. exact overlap_many. Qed.
+Print Assumptions C06_overlap_of_many.
+
+(* tilt lists: a product carries the concatenation of the operands' lists, a merge carries none (tilt metadata of
+   merged fields is dropped silently - the code has a TODO about it) *)
+Theorem C06_tilt_lists :
+  forall (S : Scalar),
+  (forall (a b p : field S), fmul a b = Some p -> ftilt p = ftilt a ++ ftilt b) /\
+  (forall (fs : list (field S)), ftilt (merge fs) = []).
+Proof. exact (fun S => conj (fmul_tilt S) (merge_tilt S)). Qed.
+Print Assumptions C06_tilt_lists.
+
+(* 0-d data cannot be inserted into a 2-d array, whatever the flags (known finding C06-one-element-insert) *)
+Theorem C06_insert_zero_dim_refused :
+  forall (S : Scalar) (g : S -> S) (f : field S) (v : S) (out : arr S) (w : S), fd f = D0 v -> insert g f out w = Err ValueError.
+Proof. exact insert_zero_dim_refused. Qed.
+Print Assumptions C06_insert_zero_dim_refused.
+
+(* array_extent: a shape with fewer than two entries is the single sample at the shift; with parent_shape the same
+   samples are indexed from the parent's upper-left corner (origin sample floor(n/2)) *)
+Theorem C06_array_extent_short_shape_and_parent :
+  (forall (shape : list Z) shr shc, (length shape < 2)%nat ->
+     array_extent_any shape shr shc None = array_extent 1 1 shr shc /\
+     forall r c, inE (array_extent_any shape shr shc None) r c = (r =? shr) && (c =? shc)) /\
+  (forall (shape : list Z) shr shc pr pc i j,
+     inE (array_extent_any shape shr shc (Some (pr, pc))) i j
+     = inE (array_extent_any shape shr shc None) (i - pr / 2) (j - pc / 2)).
+Proof. exact (conj array_extent_any_spec array_extent_parent_spec). Qed.
+Print Assumptions C06_array_extent_short_shape_and_parent.
+
+(* empty and one-element collections; Field.shape / .size / .extent *)
+Theorem C06_empty_collections_and_attributes :
+  forall (S : Scalar),
+  (@boundary S [] = (maxsize, - maxsize, maxsize, - maxsize) /\ @reduce S [] = [] /\ @overlap S [] = true /\
+   @merge_px S [] = Err IndexError /\ (forall f : field S, reduce [f] = [f] /\ overlap [f] = true)) /\
+  (forall f : field S,
+   (fshape f = None <-> is0d (fd f) = true) /\
+   (forall n m, fshape f = Some (n, m) -> fsize f = n * m /\ fextent f = array_extent_any [n; m] (offr f) (offc f) None) /\
+   (fshape f = None -> fsize f = 1 /\ fextent f = array_extent_any [] (offr f) (offc f) None)).
+Proof. exact (fun S => conj (empty_collections S) (field_attributes S)). Qed.
+Print Assumptions C06_empty_collections_and_attributes.
+
 (* non-vacuity: concrete fields over Z meeting the hypotheses, with a partially overlapping product,
    a reduce that merges two of three fields, and an insert that is clipped *)
 Definition exA : field ZS := mkField (D2 (@mkArr ZS 2 3 (fun i j => 1 + i * 3 + j))) 1 (-1) [].
@@ -137,3 +224,14 @@ Example C06_nonvacuous :
   (match insert (fun x => x) exA (@mkArr ZS 2 2 (fun _ _ => 100)) 1 with
    | Ok o => get o 1 0 = 102 /\ get o 0 0 = 100 | Err _ => False end).
 Proof. vm_compute. repeat split; try discriminate; reflexivity. Qed.
+
+(* non-vacuity of the entry-point theorems: an enforced merge of two overlapping fields with equal pixelscales
+   succeeds, a non-overlapping pair is refused, unequal pixelscales are refused, three chained fields overlap *)
+Example C06_api_nonvacuous :
+  (match merge_pub (exA, PxS 1%Qc) (exB, PxS 1%Qc) true with Ok (m, p) => p = PxS 1%Qc /\ embed m 1 0 = 6 + 11 | Err _ => False end) /\
+  merge_pub (exA, PxNone) (exC, PxNone) true = Err ValueError /\
+  (match merge_pub (exA, PxNone) (exC, PxNone) false with Ok (m, _) => embed m (-4) 5 = 7 | Err _ => False end) /\
+  merge_pub (exA, PxS 1%Qc) (exB, PxP 1%Qc 1%Qc) true = Err ValueError /\
+  overlap [exA; exB] = true /\ overlap [exA; exC] = false /\ overlap [exA; exB; exC] = false /\ overlap [exA; exC; exB] = false /\
+  @merge_px ZS [] = Err IndexError.
+Proof. vm_compute. repeat split; reflexivity. Qed.
